@@ -157,8 +157,22 @@ Definition split_spec (sp : splitter) (dst : ia) : split_res :=
          SplitOk (map (inst src dst s) (table k))
   end.
 
+(** the meaning of a request list, independent of the table: the requested
+    segments form a chain from [a] to [b] (each request starts where the previous
+    one ended; wildcards are matched by their wildcard), at most one segment of a
+    kind, up before core before down *)
+Definition rank (t : N) : N := if t =? Up then 1 else if t =? Core then 2 else 3.
+Fixpoint chain_from (a : ia) (prev : N) (l : list req) (b : ia) : Prop :=
+  match l with
+  | [] => a = b
+  | r :: t => rq_src r = a /\ prev < rank (rq_type r) /\ chain_from (rq_dst r) (rank (rq_type r)) t b
+  end.
+Definition has_type (t : N) (l : list req) : bool := existsb (fun r => rq_type r =? t) l.
+
 (** ---------------------------------------------------------------- Pather *)
-Record seg := mkseg { sg_type : N; sg_first : ia; sg_last : ia }.
+(** [sg_id] names the segment (the Pather never looks at it; it lets an instance of
+    [combine] find the segment's content) *)
+Record seg := mkseg { sg_type : N; sg_first : ia; sg_last : ia; sg_id : N }.
 Definition iface := (ia * N)%type.
 Record cpath := mkcpath { p_ifs : list iface; p_exp : Z }.       (* combinator.Path: Metadata *)
 Record rpath := mkrpath { r_src : ia; r_dst : ia; r_ifs : list iface; r_exp : Z }.   (* snet path *)
@@ -306,7 +320,9 @@ Record env := mkenv {
   e_pool : list seg; e_fetch_fail : bool;
   e_comb : list (ia * list cpath);
   e_revs : list (iface * Z);
-  e_missing : list N }.                       (* interface ids without a next hop *)
+  e_missing : list N;                         (* interface ids without a next hop *)
+  e_cores : list ia;                          (* the core ASes of the topology the pool comes from *)
+  e_shaped : bool }.                          (* the pool segments are beaconing-shaped *)
 
 (** now = 0: all times in a case are relative to the runner's clock reading *)
 Definition model_paths (e : env) : gp_res :=
@@ -318,7 +334,7 @@ Definition dst_ok (e : env) (d : ia) : bool :=
   let dst := e_dst e in
   if negb (wildcard dst) then ia_eqb d dst
   else
-    (isd d =? isd dst) &&
+    (isd d =? isd dst) && mem_ia d (e_cores e) &&
     let segs := fst (pool_fetch (e_pool e) (e_fetch_fail e) (requests (e_sp e) dst)) in
     mem_ia d (firsts (of_type Core segs)
               ++ (if isd dst =? isd (sp_local (e_sp e)) then firsts (of_type Up segs) else [])).
@@ -326,7 +342,8 @@ Definition dst_ok (e : env) (d : ia) : bool :=
 Definition path_ok (e : env) (p : opath) : bool :=
   match p with
   | (s, d, ifs, live) =>
-    ia_eqb s (sp_local (e_sp e)) && dst_ok e d && live
+    (* end points are promised for beaconing-shaped segments only *)
+    (negb (e_shaped e) || (ia_eqb s (sp_local (e_sp e)) && dst_ok e d)) && live
     && negb (existsb (revs_active 0 (e_revs e)) ifs)
   end.
 
